@@ -50,11 +50,13 @@ DAC_BVLS::DAC_BVLS(uint tamCode, uint nLevels, std::vector<uint> *levelsIndex,
   this->nLevels = nLevels;
   this->levels = levels;
   this->bS = new BitSequenceRG(*bS, 4);
-  this->levelsIndex = new uint[nLevels];
+  // save()/load() handle nLevels + 1 entries: the last one closes the levels
+  this->levelsIndex = new uint[nLevels + 1];
   this->rankLevels = new uint[nLevels];
 
   for (uint i = 0; i < nLevels; i++)
     this->levelsIndex[i] = (*levelsIndex)[i];
+  this->levelsIndex[nLevels] = tamCode;
 
   this->rankLevels[0] = 0;
   for (uint i = 1; i < nLevels; i++)
